@@ -60,6 +60,26 @@ static const uint32_t vals[] = VALS;   /* written times per step, enumerated by 
 #define VAL(lo, hi) ND_RANGE((lo), (hi))
 #endif
 static void hb_restart(uint32_t v) { hb_on = (v > 0); hb_per = v; hb_next = now + v; }
+/* the period "counted in timer ticks": ticks until the heartbeat action is due and its reload value, read from the
+ * timer lists (lets periods far beyond the number of ticks a harness can run be checked: 70 ms at 1 MHz = 70000 ticks) */
+static void check_hb_ticks(uint32_t ms)
+{
+    CO_TMR        *t = &node.Tmr;
+    CO_TMR_TIME   *e;
+    CO_TMR_ACTION *a;
+    uint32_t acc = env_tmr_counter, i, j, found = 0, due = 0, cyc = 0;
+    uint32_t want = ms * (OD_FREQ / 1000u);
+    if (ms == 0) { CHECK(node.Nmt.Tmr < 0, "heartbeat time zero: no heartbeat action"); return; }
+    CHECK(node.Nmt.Tmr >= 0, "heartbeat action exists while 1017h is non-zero");
+    for (e = t->Use, i = 0; (e != 0) && (i <= OD_TMR_N); e = e->Next, i++) {
+        if (i > 0) { acc += e->Delta; }
+        for (a = e->Action, j = 0; (a != 0) && (j <= OD_TMR_N); a = a->Next, j++) {
+            if ((int16_t)a->Id == node.Nmt.Tmr) { found++; due = acc; cyc = a->CycleTicks; }
+        }
+    }
+    CHECK(found == 1, "heartbeat action pending exactly once");
+    CHECK(due == want && cyc == want, "heartbeat period in timer ticks = time x frequency, restarted by the write");
+}
 
 void harness(void)
 {
@@ -94,11 +114,13 @@ void harness(void)
             sdo_wr(0x1017, 0, 2, v);
             CHECK(count_id(0x580 + OD_NODEID) == 1 && env_tx[0].Data[0] == 0x60, "write to 1017h accepted");
             hb_restart(v);
+            check_hb_ticks(v);
         } else if (o == 'A') {
             uint32_t v = VAL(0, 3);
             CO_ERR e = CODictWrWord(&node.Dict, CO_DEV(0x1017, 0), (uint16_t)v);
             CHECK(e == CO_ERR_NONE, "API write to 1017h accepted");
             hb_restart(v);
+            check_hb_ticks(v);
         } else if (o == 'N') { nmt(1);
         } else if (o == 'S') { nmt(2);
         } else if (o == 'P') { nmt(128);
